@@ -100,13 +100,15 @@ class Contract:
     trusted_reason: str = ""
     props: list = field(default_factory=list)
     yields: list = field(default_factory=list)  # [(label, expr, cls)] checked at every yield
-    yield_ghost: dict = field(default_factory=dict)
+    yield_ghost: dict = field(default_factory=dict)  # ghost name -> update expression evaluated after each yield
+    ghost_init: dict = field(default_factory=dict)  # ghost name -> initial value expression
     end: list = field(default_factory=list)  # [(label, expr, cls)] at generator exhaustion
     race: bool = False  # generate C19 obligations for prange loops
     pure: bool = True
     notes: str = ""
     assumptions: list = field(default_factory=list)
     case_requires: dict = field(default_factory=dict)  # (name, case label) -> [exprs]
+    case_defs: dict = field(default_factory=dict)  # (name, case label) -> [(target path, expr)] definitional equalities
     bv_u1: bool = False  # model uint8 arrays allocated in the body as bit-vectors
     kind: str = "function"  # 'function' | 'race' | 'lemma'
     ghost_params: dict = field(default_factory=dict)
